@@ -175,7 +175,7 @@ def confirm(v):
     return out != expected(v['task'], v['model']), out
 
 
-def validate(prog, rng, n):
+def validate(prog, rng, n, rep=None):
     """translator validation: concrete cases near the type limits through the MIR executor and the native crate"""
     cases = []
     for i in range(n):
@@ -192,6 +192,9 @@ def validate(prog, rng, n):
     outs = H.replay_lines([native_line(p, mdl) for p, mdl in cases])
     mism = []
     for (p, mdl), nat in zip(cases, outs):
+        if rep is not None and nat != expected(p, mdl):
+            H.probe_violation(rep, PROP, 'native to_%s of %d@%d gives %s, exact %s' % (p['target'], mdl['x'], p['scale'], nat, expected(p, mdl)), p, mdl, nat)
+            continue
         m = E.Machine(prog, (), [], E.Stats(), loop_bound=2000)
         try:
             r = exec_to_prim(m, p['self'], p['target'], p['scale'], mdl['x'])
@@ -229,7 +232,7 @@ def main(tier):
                        'num_traits default methods (to_i32, to_u8, ...) are outside the crate and derive from to_i64/to_u64']
     rep.outside = ['|scale| > 45 (quick) / 60 (thorough)']
     sys.stderr.write('[C15] %d tasks\n' % len(tasks))
-    rep.validated, rep.validation_mismatches = validate(prog, rng, 400 if tier == 'quick' else 4000)
+    rep.validated, rep.validation_mismatches = validate(prog, rng, 400 if tier == 'quick' else 4000, rep)
     results = H.run_parallel(tasks, worker, progress=500)
     rep.add(results)
     for r in results:
